@@ -798,4 +798,109 @@ class Copies(System):
     def outcome(self, st, a, obs): return repr(obs)
 
 
-SYSTEMS = [Pure(), Mixture(), Mixing(), Setters(), Copies()]
+# =========================================================================================================================================
+class MixLive(System):
+    """ordering layer: a property package (Chemicals -> Thermo -> mixture object) is built on PRIVATE copies of chemicals FIRST; then a member
+    chemical is edited through its public setters; after every edit the EXISTING mixture object must still equal the mole-weighted sum of the
+    (edited) pure values for H and Cn, and its entropy must exceed the mole-weighted sum by the same composition-only term as before the edit."""
+    name = 'c07.mixlive'
+    merge_across_configs = False
+    PTS = [('s', 260.), ('l', 320.), ('g', 400.), ('g', 480.)]
+    N = (1., 2.5, 0.375)
+    INPLACE = ('S0', 'Hfus')            # setters that update the functors in place; the others rebuild them (reset_free_energies)
+
+    def warm(self): fx.tmo()
+    def depth(self, tier): return 2 if tier == 'quick' else 3
+
+    def configs(self, tier, seed):
+        tups = [('Water', 'Ethanol')] if tier == 'quick' else [('Water', 'Ethanol'), ('Hexane', 'AceticAcid', 'Ethanol')]
+        cf = [(t, m) for t in tups for m in range(len(t))]
+        k = seed % len(cf)
+        return cf[k:] + cf[:k]
+
+    def build(self, config):
+        tmo = fx.tmo()
+        IDs, m = config
+        cs = [chem(ID, ('ref', 'l')).copy(ID) for ID in IDs]
+        th = tmo.Thermo(tmo.Chemicals(cs))
+        st = dict(config=config, th=th, last=None, rebuilt=False, rebuilt_before=False)
+        st['gain0'] = self._gains(st)
+        return st
+
+    def _n(self, st): return np.array(self.N[:len(st['config'][0])])
+
+    def _gains(self, st):
+        th = st['th']; n = self._n(st); chems = th.chemicals.tuple
+        return {(q, T): th.mixture.S(q, n, T, 101325.) - sum(x * c.S(q, T, 101325.) for x, c in zip(n, chems)) for q, T in self.PTS}
+
+    def canon(self, st):
+        out = []
+        for c in st['th'].chemicals.tuple:
+            out.append((c.phase_ref, fx.r12(c.Tm), fx.r12(c.Tb), fx.r12(c.Hfus), fx.r12(c.S0), c.Cn.g.method,
+                        tuple(fx.r12(c.H(q, T, 101325.)) for q, T in self.PTS)))
+        th = st['th']; n = self._n(st)
+        return (st['config'], st['rebuilt'], tuple(out), tuple(fx.r12(th.mixture.H(q, n, T, 101325.)) for q, T in self.PTS))
+
+    def actions(self, st):
+        c = st['th'].chemicals.tuple[st['config'][1]]
+        return [('S0', 5.), ('Hfus', 1.125), ('Tb', 4.), ('Tm', 2.), ('reset',), ('method', 'Cn.g'),
+                ('phase_ref', 'slg'[('slg'.index(c.phase_ref) + 1) % 3])]
+
+    def step(self, st, a):
+        c = st['th'].chemicals.tuple[st['config'][1]]
+        op = a[0]
+        try:
+            if op == 'S0': c.S0 = c.S0 + a[1]
+            elif op == 'Hfus': c.Hfus = c.Hfus * a[1]
+            elif op == 'Tb': c.Tb = c.Tb + a[1]
+            elif op == 'Tm': c.Tm = c.Tm + a[1]
+            elif op == 'reset': c.reset_free_energies()
+            elif op == 'phase_ref': c.phase_ref = a[1]
+            elif op == 'method':
+                mdl = _model(c, a[1]); alt = ALT_METHODS[a[1]]
+                if alt not in mdl.all_methods: raise Rejected('alternative method not available', cut=True)
+                mdl.method = alt if mdl.method != alt else _model(chem(c.ID, ('ref', 'l')), a[1]).method
+                c.reset_free_energies()
+            else: raise ValueError(a)
+        except UNDOC as e:
+            raise Violation('unexpected-exception', f'{st["config"]} {a!r}: {type(e).__name__}: {e}', match=dict(exc=type(e).__name__, after=op))
+        except (AttributeError, RuntimeError) as e:
+            raise Rejected(f'edit refused:{type(e).__name__}', cut=True)
+        st['last'] = op
+        st['rebuilt_before'] = st['rebuilt']                 # did an earlier step of this history rebuild the functors?
+        if op not in self.INPLACE: st['rebuilt'] = True
+        return ('edit', op)
+
+    def invariants(self, st):
+        op = st['last'] or 'construct'
+        th = st['th']; n = self._n(st); chems = th.chemicals.tuple
+        kind = 'construct' if st['last'] is None else ('inplace' if op in self.INPLACE else 'rebuild')
+        m = dict(after=op, setter_kind=kind, prior_rebuild=bool(st['rebuilt_before']))
+        P = 101325.
+        try:
+            for q, T in self.PTS:
+                Hm = th.mixture.H(q, n, T, P); Hp = sum(x * c.H(q, T, P) for x, c in zip(n, chems))
+                sc = sum(abs(x * c.H(q, T, P)) for x, c in zip(n, chems))
+                if not (abs(Hm - Hp) <= 1e-12 * sc + 1e-9):
+                    return [Violation('live-H', f'{st["config"][0]} after {op} on member {st["config"][1]}: the mixture object built before the edit gives '
+                                      f'H({q}, {T}) = {Hm!r}, the mole-weighted sum of the pure values is {Hp!r}', match=m, residual=abs(Hm - Hp))]
+                Cm = th.mixture.Cn(q, n, T); Cp_ = sum(x * c.Cn(q, T) for x, c in zip(n, chems))
+                if not (abs(Cm - Cp_) <= 1e-12 * abs(Cp_)):
+                    return [Violation('live-Cn', f'{st["config"][0]} after {op}: mixture Cn({q}, {T}) = {Cm!r}, sum of the pure values {Cp_!r}', match=m,
+                                      residual=abs(Cm - Cp_))]
+                g = th.mixture.S(q, n, T, P) - sum(x * c.S(q, T, P) for x, c in zip(n, chems))
+                ss = sum(abs(x * c.S(q, T, P)) for x, c in zip(n, chems))
+                if not (abs(g - st['gain0'][(q, T)]) <= 1e-12 * ss + 1e-9):
+                    return [Violation('live-S', f'{st["config"][0]} after {op} on member {st["config"][1]}: S_mix - sum n_i S_i at ({q}, {T}) moved from '
+                                      f'{st["gain0"][(q, T)]!r} to {g!r} (it depends on the composition only)', match=m, residual=abs(g - st['gain0'][(q, T)]))]
+        except UNDOC as e:
+            return [Violation('unexpected-exception', f'{st["config"]} after {op}: {type(e).__name__}: {e}', match=dict(exc=type(e).__name__, after=op))]
+        except RuntimeError:
+            return []
+        return []
+
+    def nontrivial(self, st, a, obs): return a[0] != 'reset'
+    def outcome(self, st, a, obs): return repr(obs)
+
+
+SYSTEMS = [Pure(), Mixture(), Mixing(), Setters(), Copies(), MixLive()]
